@@ -1062,6 +1062,7 @@ def run(ctx):
     finally:
         set_route(False)
         tap.close()
+    import gencheck13; gencheck13.run_generated_c13(ctx)   # generated-model tie: the search loops regenerated from source (coq/gen_proofs/Search*Spec.v)
 
 
 def replay(ctx, body):
